@@ -43,6 +43,10 @@ Section Binv.
       + inversion H; subst. rewrite Nat2N.id. exists u. split; [left; reflexivity|]. split; [assumption|]. cbn [binv_cum]. lra.
   Qed.
 
+  (** the code forms (1-p)^n as exp(n ln_1p(-p)) (so that 1 - p is not rounded before it is raised to the power n): on R this IS Rpower *)
+  Lemma binv_r0_is_rpower (p x : R) : exp (x * ln (1 + - p)) = Rpower (1 - p) x.
+  Proof. unfold Rpower. replace (1 + - p) with (1 - p) by ring. reflexivity. Qed.
+
   (** the sampler: the returned [y] brackets a uniform variate of the source between F(y-1) and F(y) *)
   Lemma binomial_inversion_inverts fuel n p s y s' :
     binomial_inversion RO src fuel n p s = Ok (y, s') ->
@@ -51,7 +55,7 @@ Section Binv.
       (forall j, (j < N.to_nat y)%nat -> binv_cum r0 a sq (Datatypes.S j) < u) /\ u <= binv_cum r0 a sq (Datatypes.S (N.to_nat y)).
   Proof.
     unfold binomial_inversion. destruct (next_f64 src s) as [u s1] eqn:E. intros H.
-    unfold powf in H. cbn [div sub mul one ofZ RO f2 Rf2] in H.
+    cbn [div sub mul one neg ofZ RO f1 Rf1] in H. rewrite binv_r0_is_rpower in H.
     set (sq := p / (1 - p)) in *. set (a := IZR (Z.of_N n + 1) * sq) in *. set (r0 := Rpower (1 - p) (IZR (Z.of_N n))) in *.
     replace r0 with (binv_term r0 a sq 0) in H at 2 by reflexivity.
     replace u with (u - binv_cum r0 a sq 0) in H by (cbn [binv_cum]; ring).
@@ -167,7 +171,7 @@ Section BinvTerminates.
       (forall j, (j < y)%nat -> binomial_cdf n p j < fst (next_f64 src s)) /\ fst (next_f64 src s) <= binomial_cdf n p y.
   Proof.
     intros Hp Hkn Hf Hb1 Hb2 Hu. unfold binomial_inversion. destruct (next_f64 src s) as [u s1]. cbn [fst snd] in *.
-    unfold powf. cbn [div sub mul add one ofZ RO f2 Rf2 sqrt].
+    cbn [div sub mul add one neg ofZ RO f1 Rf1 sqrt]. rewrite binv_r0_is_rpower.
     rewrite !nat_N_Z.
     assert (Er : Rpower (1 - p) (IZR (Z.of_nat n)) = (1 - p) ^ n) by (rewrite <- INR_IZR_INZ; apply Rpower_pow; lra).
     assert (Ea : IZR (Z.of_nat n + 1) = INR n + 1) by (rewrite plus_IZR, <- INR_IZR_INZ; reflexivity).
